@@ -12,6 +12,8 @@ from typing import (
     Union,
 )
 
+from pandera.api.function_dispatch import Dispatcher
+
 from pandera import errors
 from pandera.api.base.checks import BaseCheck, CheckResult
 
@@ -225,10 +227,15 @@ class Check(BaseCheck):
 
             ``failure_cases``: subset of the check_object that failed.
         """
-        if self.name is not None and self.is_builtin_check(self.name):
+        if (
+            self.name is not None
+            and self.is_builtin_check(self.name)
+            and isinstance(self._check_fn, Dispatcher)
+        ):
             # we need to reload the function here in case additional
             # type signatures have been registered for a specific built-in
-            # check.
+            # check. A user-defined function that merely shares its name with
+            # a built-in check is left alone.
             self._check_fn = self.get_builtin_check_fn(self.name)
         backend = self.get_backend(check_obj)(self)
         return backend(check_obj, column)
